@@ -138,7 +138,8 @@ def _collect_all(h, timeout):
     def drain():
         while True:
             try:
-                v = h.next(timeout)
+                # (a chunked imap hands out a plain generator)
+                v = h.next(timeout) if hasattr(h, 'next') else next(h)
             except StopIteration:
                 break
             except BTimeout:
@@ -624,18 +625,21 @@ def sc_worker_death(params, obs, save):
         items = [['m.%d' % i, 'none' if i != 1 else how, point] for i in range(3)]
         h = pool.map_async(_maybe_kill, items, 1)
     else:
-        items = [['i.%d' % i, 'none' if i != 1 else how, point] for i in range(3)]
+        chunk = params.get('chunk') or 1
+        items = [['i.%d' % i, 'none' if i != 1 else how, point]
+                 for i in range(3 if chunk == 1 else 2 * chunk)]
         f = pool.imap if kind == 'imap' else pool.imap_unordered
-        h = f(_maybe_kill, items, 1, lost_worker_timeout=T)
-        # when the parent processed the acknowledgement of the part that dies
-        # (recording wrapper on this handle only)
-        orig_ack = h._ack
+        h = f(_maybe_kill, items, chunk, lost_worker_timeout=T)
+        if chunk == 1:
+            # when the parent processed the acknowledgement of the part that dies
+            # (recording wrapper on this handle only)
+            orig_ack = h._ack
 
-        def _ack(i, time_accepted, pid, *a):
-            if i == 1:
-                obs['accept_t'], obs['victim'] = time.monotonic(), pid
-            return orig_ack(i, time_accepted, pid, *a)
-        h._ack = _ack
+            def _ack(i, time_accepted, pid, *a):
+                if i == 1:
+                    obs['accept_t'], obs['victim'] = time.monotonic(), pid
+                return orig_ack(i, time_accepted, pid, *a)
+            h._ack = _ack
     if external:
         _wait_for(lambda: 'accept' in cbs, 10)
         time.sleep(params.get('ext_delay', 0.2))
@@ -925,7 +929,14 @@ def sc_grow_shrink(params, obs, save):
     _wait_for(lambda: live() == n + params['grow'], 8)
     obs['live_after_grow'] = live()
     obs['indices_after_grow'] = sorted(getattr(w, 'index', -1) for w in pool._pool)
-    obs['pids_after_grow'] = pids_serving(3 * (n + params['grow']))
+    # a grown worker that is alive may still be starting up on a loaded machine:
+    # several rounds before "the new workers serve nothing" is believed
+    served = set()
+    for _round in range(8):
+        served |= set(pids_serving(3 * (n + params['grow'])))
+        if len(served) >= min(n + params['grow'], 2):
+            break
+    obs['pids_after_grow'] = sorted(served)
     time.sleep(0.5)          # everybody idle again
     try:
         pool.shrink(params['shrink'])
